@@ -1,0 +1,133 @@
+//go:build verif
+
+// Contracts for the deductive verifier in /verif (govc): match ranges (C02).
+// Comment-only file, compiled only with -tags verif.
+
+package index
+
+// ---------------------------------------------------------------------------
+// C02: splitting a match on newlines (line mode)
+// ---------------------------------------------------------------------------
+
+// Every piece is a fresh, non-empty sub-range of the original range that
+// contains no newline byte; pieces are in increasing order and do not touch;
+// everything of the original range that is not in a piece is a newline byte.
+//@ func index.breakOnNewlines
+//@   requires cm != nil && len(text) < 4294967296
+//@   requires cm.byteOffset + cm.byteMatchSz <= len(text)
+//@   let LO = cm.byteOffset
+//@   let HI = cm.byteOffset + cm.byteMatchSz
+//@   loop 1:
+//@     invariant LO <= i && i <= HI && cm.byteOffset == LO && cm.byteMatchSz == HI - LO
+//@     invariant addMe != nil && fresh(addMe) && LO <= addMe.byteOffset && addMe.byteOffset <= i
+//@     invariant addMe.fileName == cm.fileName && addMe.file == cm.file
+//@     invariant forall x int :: addMe.byteOffset <= x && x < i ==> text[x] != '\n'
+//@     invariant cms == nil || fresh(cms)
+//@     invariant forall k int :: 0 <= k && k < len(cms) ==> cms[k] != nil && fresh(cms[k]) && cms[k] != addMe
+//@     invariant forall k int :: 0 <= k && k < len(cms) ==> cms[k].byteMatchSz > 0 && LO <= cms[k].byteOffset && cms[k].byteOffset + cms[k].byteMatchSz < addMe.byteOffset
+//@     invariant forall k int :: 0 <= k && k < len(cms) ==> cms[k].fileName == cm.fileName && cms[k].file == cm.file
+//@     invariant forall j, k int :: 0 <= j && k == j + 1 && k < len(cms) ==> cms[j].byteOffset + cms[j].byteMatchSz < cms[k].byteOffset
+//@     invariant forall k, x int :: 0 <= k && k < len(cms) && cms[k].byteOffset <= x && x < cms[k].byteOffset + cms[k].byteMatchSz ==> text[x] != '\n'
+//@     invariant forall j, k, x int :: 0 <= j && k == j + 1 && k < len(cms) && cms[j].byteOffset + cms[j].byteMatchSz <= x && x < cms[k].byteOffset ==> text[x] == '\n'
+//@     invariant len(cms) > 0 ==> (forall x int :: LO <= x && x < cms[0].byteOffset ==> text[x] == '\n')
+//@     invariant len(cms) > 0 ==> (forall x int :: cms[len(cms)-1].byteOffset + cms[len(cms)-1].byteMatchSz <= x && x < addMe.byteOffset ==> text[x] == '\n')
+//@     invariant len(cms) == 0 ==> (forall x int :: LO <= x && x < addMe.byteOffset ==> text[x] == '\n')
+//@     decreases HI - i
+//@   ensures forall k int :: 0 <= k && k < len(result) ==> result[k] != nil && result[k].byteMatchSz > 0 && LO <= result[k].byteOffset && result[k].byteOffset + result[k].byteMatchSz <= HI && result[k].fileName == cm.fileName && result[k].file == cm.file
+//@   ensures forall j, k int :: 0 <= j && k == j + 1 && k < len(result) ==> result[j].byteOffset + result[j].byteMatchSz < result[k].byteOffset
+//@   ensures forall k, x int :: 0 <= k && k < len(result) && result[k].byteOffset <= x && x < result[k].byteOffset + result[k].byteMatchSz ==> text[x] != '\n'
+//@   ensures forall j, k, x int :: 0 <= j && k == j + 1 && k < len(result) && result[j].byteOffset + result[j].byteMatchSz <= x && x < result[k].byteOffset ==> text[x] == '\n'
+//@   ensures len(result) > 0 ==> (forall x int :: LO <= x && x < result[0].byteOffset ==> text[x] == '\n')
+//@   ensures len(result) > 0 ==> (forall x int :: result[len(result)-1].byteOffset + result[len(result)-1].byteMatchSz <= x && x < HI ==> text[x] == '\n')
+//@   ensures len(result) == 0 ==> (forall x int :: LO <= x && x < HI ==> text[x] == '\n')
+//@   ensures cm.byteOffset == LO && cm.byteMatchSz == HI - LO
+
+// ---------------------------------------------------------------------------
+// C02: candidate order and the non-overlap filter of gatherMatches
+// ---------------------------------------------------------------------------
+
+// The documented order: file-name matches first, then by offset, the longer
+// candidate first at equal offset.
+//@ pure func candLess(a *candidateMatch, b *candidateMatch) bool = ite(a.fileName != b.fileName, a.fileName, ite(a.byteOffset == b.byteOffset, a.byteMatchSz > b.byteMatchSz, a.byteOffset < b.byteOffset))
+
+//@ func index.(sortByOffsetSlice).Less
+//@   requires 0 <= i && i < len(m) && 0 <= j && j < len(m) && m[i] != nil && m[j] != nil
+//@   ensures result == candLess(m[i], m[j])
+//@   assigns nothing
+
+// sort.Sort on a sortByOffsetSlice (assumed; the comparator is proved above to
+// implement candLess): afterwards no element sorts before an earlier one, and
+// the elements are the ones that were there.
+//@ func sort.Sort
+//@   trusted
+//@   ensures typeis(data, "sortByOffsetSlice") ==> (forall a, b int :: 0 <= a && a < b && b < len(as(data, "sortByOffsetSlice")) ==> !candLess(as(data, "sortByOffsetSlice")[b], as(data, "sortByOffsetSlice")[a]))
+//@   assigns anyelem("*candidateMatch")
+
+// candLess is a strict weak order (what sort.Sort needs to produce a sorted
+// sequence): irreflexive, transitive, and incomparability is transitive.
+//@ lemma candLessIrreflexive: forall a *candidateMatch :: !candLess(a, a)
+//@ lemma candLessTransitive: forall a, b, c *candidateMatch :: candLess(a, b) && candLess(b, c) ==> candLess(a, c)
+//@ lemma candLessIncomparableTransitive: forall a, b, c *candidateMatch :: !candLess(a, b) && !candLess(b, a) && !candLess(b, c) && !candLess(c, b) ==> !candLess(a, c) && !candLess(c, a)
+
+// gatherMatches: only the sort + filter part is under contract (the candidate
+// collection through visitMatches reads match-tree state that has no contract:
+// may_panic, contents unconstrained). For every such content:
+//  - the result is a subsequence of the sorted candidates, in that order, and
+//    therefore itself sorted (file-name matches first, increasing offset);
+//  - neighbouring results of the same kind do not overlap (offset arithmetic is
+//    the code's own uint32 arithmetic);
+//  - the first sorted candidate is kept, and every candidate that is dropped
+//    starts before the end of a kept candidate of the same kind (completeness
+//    of the leftmost-non-overlapping selection).
+//@ func index.(*indexData).gatherMatches
+//@   may_panic
+//@   loop 1:
+//@     invariant base(res) == base(cands) && offset(res) == offset(cands) && cap(res) == cap(cands) && 0 <= len(res) && len(res) <= $i + 1 && ($i >= 0 ==> len(res) >= 1)
+//@     invariant forall k int :: $i < k && k < len(cands) ==> cands[k] == before(1, cands[k])
+//@     invariant forall a int :: 0 <= a && a < len(res) ==> (exists m int :: a <= m && m <= $i && res[a] == before(1, cands[m]))
+//@     invariant forall a, b int :: 0 <= a && a < b && b < len(res) ==> !candLess(res[b], res[a])
+//@     invariant forall a, k int :: 0 <= a && a < len(res) && $i < k && k < len(cands) ==> !candLess(cands[k], res[a])
+//@     invariant forall j, k int :: 0 <= j && k == j + 1 && k < len(res) && res[j].fileName == res[k].fileName ==> uint32(res[j].byteOffset + res[j].byteMatchSz) <= res[k].byteOffset
+//@     invariant $i >= 0 ==> res[0] == before(1, cands[0])
+//@     invariant forall m int :: 0 <= m && m <= $i ==> (exists a int :: 0 <= a && a < len(res) && (res[a] == before(1, cands[m]) || (res[a].fileName == before(1, cands[m]).fileName && uint32(res[a].byteOffset + res[a].byteMatchSz) > before(1, cands[m]).byteOffset)))
+//@     decreases len(cands) - $i
+//@   ensures forall a, b int :: 0 <= a && a < b && b < len(result) ==> !candLess(result[b], result[a])
+//@   ensures forall j, k int :: 0 <= j && k == j + 1 && k < len(result) && result[j].fileName == result[k].fileName ==> uint32(result[j].byteOffset + result[j].byteMatchSz) <= result[k].byteOffset
+//@   ensures len(result) >= 1
+
+// ---------------------------------------------------------------------------
+// C02: rune offset -> byte offset map
+// ---------------------------------------------------------------------------
+
+//@ pure func okROM(m runeOffsetMap) bool = forall a, b int :: 0 <= a && a < b && b < len(m) ==> m[a].runeOffset < m[b].runeOffset
+
+// lookup: the remainder is the rune index modulo the sampling frequency; the
+// byte offset is interpolated from the LAST correction point at or before the
+// aligned rune index (none: the identity).
+//@ func index.(runeOffsetMap).lookup
+//@   requires okROM(m)
+//@   ensures result1 == runeOffset % 100
+//@   ensures (forall k int :: 0 <= k && k < len(m) ==> m[k].runeOffset > runeOffset - runeOffset % 100) ==> result0 == runeOffset - runeOffset % 100
+//@   ensures forall x int :: 0 <= x && x < len(m) && m[x].runeOffset <= runeOffset - runeOffset % 100 && (x + 1 == len(m) || m[x+1].runeOffset > runeOffset - runeOffset % 100) ==> result0 == uint32(m[x].byteOffset + (runeOffset - runeOffset % 100) - m[x].runeOffset)
+//@   assigns nothing
+
+// repROM(m, off, n): for every sample k < n the map m interpolates to off[k]
+// (what lookup computes for the aligned rune index 100*k).
+//@ pure func repROM(m []runeOffsetCorrection, off []uint32, n int) bool = (forall k int :: 0 <= k && k < n && (forall j int :: 0 <= j && j < len(m) ==> m[j].runeOffset > 100*k) ==> off[k] == 100*k) && (forall k, x int :: 0 <= k && k < n && 0 <= x && x < len(m) && m[x].runeOffset <= 100*k && (x + 1 == len(m) || m[x+1].runeOffset > 100*k) ==> off[k] == m[x].byteOffset + 100*k - m[x].runeOffset)
+//@ pure func okROMs(m []runeOffsetCorrection) bool = forall a, b int :: 0 <= a && a < b && b < len(m) ==> m[a].runeOffset < m[b].runeOffset
+
+// makeRuneOffsetMap: the compact map is strictly increasing in rune offset and
+// represents exactly the sampled byte offsets it was built from (files below
+// 4 GiB: no uint32 wrap-around in the sampled offsets).
+//@ func index.makeRuneOffsetMap
+//@   requires 100 * len(off) + 100 < 4294967296
+//@   requires forall k int :: 0 <= k && k < len(off) ==> off[k] + 100 < 4294967296
+//@   loop 1:
+//@     invariant tmp != nil && fresh(tmp) && okROMs(tmp)
+//@     invariant forall j int :: 0 <= j && j < len(tmp) ==> tmp[j].runeOffset <= 100 * $i
+//@     invariant len(tmp) == 0 ==> expected == 100 * ($i + 1)
+//@     invariant len(tmp) > 0 ==> expected == tmp[len(tmp)-1].byteOffset + 100 * ($i + 1) - tmp[len(tmp)-1].runeOffset
+//@     invariant repROM(tmp, off, $i + 1)
+//@     invariant forall k int :: 0 <= k && k < len(off) ==> off[k] == old(off[k])
+//@     decreases len(off) - $i
+//@   ensures okROM(result) && repROM(result, off, len(off))
